@@ -105,6 +105,10 @@ def parse_type(s):
                 need('>')
                 return ('named', name) + tuple(args)
             return ('named', name)
+        if eat('iter['):
+            t = ty()
+            need(']')
+            return ('iter', t)
         m = re.match(r'[a-z]+', s[pos[0]:])
         if not m:
             raise ValueError('type %r: unexpected at %d' % (s, pos[0]))
@@ -146,7 +150,7 @@ def lean_type(t, top=True):
         return 'Unit'
     if k == 'opt':
         r = 'Option ' + lean_type(t[1], False)
-    elif k == 'list':
+    elif k in ('list', 'iter'):
         r = 'List ' + lean_type(t[1], False)
     elif k == 'tup':
         r = ' × '.join(lean_type(x, False) for x in t[1:])
@@ -166,7 +170,7 @@ def lean_type(t, top=True):
 
 
 def is_seq(t):
-    return t[0] in ('list', 'str')
+    return t[0] in ('list', 'str', 'iter')
 
 
 def elem_type(t):
@@ -278,7 +282,8 @@ METHODS = {
     ('str', 'upper'): Prim('(Yaql.PyStr.upper {cfg} {self})', [], STR),
     ('str', 'lower'): Prim('(Yaql.PyStr.lower {cfg} {self})', [], STR),
     # list
-    ('list', 'insert'): Prim('(Yaql.Py.listInsert {self} {0} {1})', ['int', None], None, mut=True),
+    # list.insert converts the index to Py_ssize_t (OverflowError outside)
+    ('list', 'insert'): Prim('(Yaql.Py.listInsert? {self} {0} {1})', ['int', None], None, mut=True, partial=True),
     ('list', 'append'): Prim('({self} ++ [{0}])', [None], None, mut=True),
     ('list', 'extend'): Prim('({self} ++ {0})', [None], None, mut=True),
     # dict
@@ -290,6 +295,10 @@ METHODS = {
 
 
 # ------------------------------------------------------------------------------------ translation
+
+GLOBAL_PRIMS = {}      # dotted python name -> Prim (filled by srcgen_targets)
+GLOBAL_CONSTS = {}     # dotted python name -> (lean text, type)
+
 
 class Var:
     def __init__(self, lean, ty, param=False, fresh=False):
@@ -320,7 +329,7 @@ class Target:
 
     def __init__(self, qual, area, owners, params, ret, model=None, theorem=None, raises=False, ambient=(),
                  prims=None, name=None, errors=None, fuel=False, consts=None, note='', gen=None, pre=None,
-                 diff=None, expr=None):
+                 diff=None, expr=None, locals=None, fuel_expr=None, vararg=False, callname=None, pyargs=None):
         self.qual = qual                      # 'pkg.module:func' or 'pkg.module:Class.method'
         self.module, self.func = qual.split(':')
         self.area, self.owners = area, list(owners)
@@ -337,6 +346,12 @@ class Target:
         self.pre = pre                        # python predicate on the argument tuple: domain of the comparison
         self.diff = diff                      # False: no source-level differential for this target
         self.expr = expr                      # how the function is reached from a yaql expression (for the oracle)
+        self.locals = {k: T(v) for k, v in (locals or {}).items()}   # declared types of locals (None-initialised ...)
+        self.pyargs = pyargs                  # abstract generated arguments -> python arguments (differential)
+        self.vararg = vararg                  # the last parameter is `*args` (a list on the Lean side)
+        self.callname = callname              # dotted name under which other modules call it (e.g. 'utils.f')
+        self.fuel = fuel                      # the function has `while` loops: extra parameter `fuel : Nat`
+        self.fuel_expr = fuel_expr            # Lean Nat expression over the parameters: enough fuel (differential)
 
     @property
     def lean_name(self):
@@ -385,6 +400,7 @@ def source_digest(fnode):
 def contains(node_or_list, types, stop=()):
     """does the statement (list) contain a node of `types`, not descending into `stop` nodes / nested defs"""
     todo = list(node_or_list) if isinstance(node_or_list, list) else [node_or_list]
+    todo = [n for n in todo if not isinstance(n, (ast.FunctionDef, ast.Lambda, ast.ClassDef))]
     while todo:
         n = todo.pop()
         if isinstance(n, types):
@@ -462,6 +478,24 @@ def assigned_names(stmts):
 
 OUT = 'out__'      # the list a generator function has produced so far
 
+# isinstance on a value whose class the typing entry fixes: (classes it is an instance of, classes it is not)
+_SEQ = {'utils.SequenceType', 'collections.abc.Sequence', 'tuple', 'list', 'utils.IterableType',
+        'collections.abc.Iterable'}
+_NOTSEQ = {'int', 'str', 'bool', 'float', 'dict', 'utils.MappingType', 'collections.abc.Mapping', 'utils.SetType',
+           'utils.MutableSetType', 'set', 'frozenset', 'collections.abc.Iterator', 'utils.IteratorType'}
+STATIC_CLASSES = {
+    'int': ({'int'}, {'str', 'bool', 'float', 'tuple', 'list', 'dict', 'utils.SequenceType', 'utils.MappingType',
+                      'utils.SetType'}),
+    'str': ({'str'}, {'int', 'bool', 'float', 'tuple', 'list', 'dict', 'utils.SequenceType', 'utils.MappingType',
+                      'utils.SetType', 'utils.IterableType'}),
+    'bool': ({'bool', 'int'}, {'str', 'float', 'tuple', 'list', 'dict'}),
+    'list': (_SEQ, _NOTSEQ),
+    # a one-shot iterator (given by its finite content): iterable, not a sized collection
+    'iter': ({'collections.abc.Iterator', 'utils.IteratorType', 'utils.IterableType', 'collections.abc.Iterable'},
+             {'utils.SequenceType', 'collections.abc.Sequence', 'tuple', 'list', 'utils.MappingType', 'utils.SetType',
+              'collections.abc.Mapping', 'dict', 'str', 'int'}),
+}
+
 
 class FnTranslator:
     def __init__(self, target, fnode, registry=None, universes=None):
@@ -520,6 +554,10 @@ class FnTranslator:
         binders = []
         for (ln, lt) in self.t.ambient:
             binders.append('(%s : %s)' % (ln, lt))
+        if self.t.fuel:
+            if not self.monadic:
+                self.refuse(f, 'a function with fuel must be declared raises=True (running out of fuel is Err.fuel)')
+            binders.append('(fuel : Nat)')
         ndef = len(a.defaults)
         first_def = len(a.args) - ndef
         for i, (p, ty) in enumerate(self.t.params):
@@ -601,6 +639,25 @@ class FnTranslator:
             return E('(some %s)' % inner.text, ty, inner.binds, inner.fresh)
         if e.ty[0] == 'list' and e.ty[1] is None and ty[0] in ('list', 'str', 'dict'):      # the empty literal
             return E('([] : %s)' % lean_type(ty), ty, e.binds, True)
+        if e.ty[0] == 'list' and e.ty[1] is None and self.injection(e.ty, ty) is not None:
+            pass
+        if e.ty[0] == 'tup' and ty[0] == 'tup' and len(e.ty) == len(ty) and e.text.startswith('(') \
+                and getattr(e, 'parts', None):
+            parts = [self.coerce(x, t2, node) for x, t2 in zip(e.parts, ty[1:])]
+            return E('(%s)' % ', '.join(x.text for x in parts), ty, [b for x in parts for b in x.binds])
+        inj = self.injection(e.ty, ty)
+        if inj is not None:
+            need = re.findall(r'\{([a-z_]+)\}', inj)
+            amb = {ln: ln for ln, _ in self.t.ambient}
+            for nm in need:
+                if nm not in amb:
+                    self.refuse(node, 'coercion to %s needs the ambient parameter %s' % (lean_type(ty), nm))
+            return E(inj.format(e.text, **amb), ty, e.binds, e.fresh)
+        if e.ty[0] == 'list' and ty[0] == 'list' and e.ty[1] is not None and e.text.startswith('[') \
+                and self.injection(e.ty[1], ty[1]) is not None:
+            # a list display whose elements are injected one by one is handled by ex_List; here: map
+            return E('(List.map (fun v__ => %s) %s)' % (self.injection(e.ty[1], ty[1]).format('v__'), e.text),
+                     ty, e.binds, True)
         if e.ty[0] == 'list' and ty[0] == 'list' and self.compatible(e.ty[1], ty[1]) and e.text.startswith('['):
             return E(e.text, ty, e.binds, e.fresh)
         if e.ty == ('list', CHAR) and ty == STR or e.ty == STR and ty == ('list', CHAR):
@@ -608,8 +665,21 @@ class FnTranslator:
         self.refuse(node, 'type mismatch: have %s, need %s' % (lean_type(e.ty) if e.ty[0] != 'none' else 'None',
                                                                lean_type(ty)))
 
+    def injection(self, a, b):
+        """Lean template turning a value of type a into the named (universe) type b"""
+        if b[0] == 'named' and a != b:
+            inj = self.universes.get(b[1], {}).get('inject', {})
+            for src, tmpl in inj.items():
+                if src != '[]' and T(src) == a:
+                    return tmpl
+            if a[0] == 'list' and a[1] is None and '[]' in inj:
+                return inj['[]']
+        return None
+
     def compatible(self, a, b):
         if a == b or a == NONE and b[0] == 'opt':
+            return True
+        if self.injection(a, b) is not None:
             return True
         if b[0] == 'opt' and self.compatible(a, b[1]):
             return True
@@ -634,6 +704,15 @@ class FnTranslator:
             return b
         if b[0] == 'list' and b[1] is None:
             return a
+        if self.injection(a, b) is not None:
+            return b
+        if self.injection(b, a) is not None:
+            return a
+        # two different base types that both inject into one declared universe
+        for uname, uni in self.universes.items():
+            u = ('named', uname)
+            if uni.get('inject') and self.injection(a, u) is not None and self.injection(b, u) is not None:
+                return u
         self.refuse(node, 'branches have different types %s / %s' % (a, b))
 
     # ------------------------------------------------------------------ statements
@@ -655,8 +734,39 @@ class FnTranslator:
     def st_Pass(self, s, env, ctx, cont, rest):
         return cont(env)
 
+    def st_FunctionDef(self, s, env, ctx, cont, rest):
+        """a local nullary generator `def g(): ...` whose only use is `return g()`: its body is translated in place
+        of that return, producing the list of the yielded items"""
+        a = s.args
+        if a.args or a.vararg or a.kwarg or a.kwonlyargs or a.posonlyargs or s.decorator_list:
+            self.refuse(s, 'nested function with parameters or decorators')
+        if not contains(s.body, (ast.Yield, ast.YieldFrom)):
+            self.refuse(s, 'nested function that is not a generator')
+        if s.name in assigned_names(s.body):
+            self.refuse(s, 'nested generator rebinding its own name')
+        env2 = dict(env)
+        env2[s.name] = Var(s.name, ('localgen', s), param=False)
+        return cont(env2)
+
     def st_Return(self, s, env, ctx, cont, rest):
         ctx.escaped = True
+        v = s.value
+        if isinstance(v, ast.Call) and isinstance(v.func, ast.Name) and v.func.id in env \
+                and env[v.func.id].ty[0] == 'localgen' and not v.args and not v.keywords:
+            g = env[v.func.id].ty[1]
+            if self.is_gen or self.t.ret[0] != 'list' or ctx.brk is not None:
+                self.refuse(s, 'return of a local generator in this position')
+            # the body runs with the variables as they are at this point (closures capture by reference, and the
+            # call happens here); it must not rebind captured variables
+            captured = [n for n in assigned_names(g.body) if n in env and n != OUT]
+            if captured:
+                self.refuse(g, 'local generator assigns captured variables %r' % captured)
+            self.is_gen = True
+            env2 = dict(env)
+            env2[OUT] = Var(OUT, self.t.ret, fresh=True)
+            body = self.tr_stmts(strip_doc(g.body), env2, ctx, lambda env_: ctx.ret(None, env_))
+            self.is_gen = False
+            return 'let %s : %s := []\n%s' % (OUT, lean_type(self.t.ret), body)
         e = self.tr_expr(s.value, env) if s.value is not None else None
         return ctx.ret(e, env)
 
@@ -678,6 +788,9 @@ class FnTranslator:
 
     def bind_var(self, env, name, e, node):
         """env with `name` bound to the value of e; returns (env2, lean binder text)"""
+        if name in self.t.locals and (name not in env or env[name].ty == self.t.locals[name]):
+            e2 = self.coerce(e, self.t.locals[name], node)
+            e.text, e.ty = e2.text, e2.ty
         if e.ty == NONE:
             self.refuse(node, 'cannot infer the type of a variable bound to None (assign a typed value first)')
         if e.ty[0] == 'list' and e.ty[1] is None:
@@ -798,10 +911,19 @@ class FnTranslator:
         self.refuse(s, 'assert is outside the subset')
 
     # -- if
+    def is_none_node(self, node, env):
+        if isinstance(node, ast.Constant) and node.value is None:
+            return True
+        d = self.dotted(node)
+        if d is not None and d.split('.')[0] not in env:
+            c = self.const_of(d)
+            return c is not None and T(c[1]) == NONE
+        return False
+
     def narrowing(self, test, env):
         """`x is None` / `x is not None` on an optional local: (name, positive?) or None"""
         if isinstance(test, ast.Compare) and len(test.ops) == 1 and isinstance(test.left, ast.Name) \
-                and isinstance(test.comparators[0], ast.Constant) and test.comparators[0].value is None \
+                and self.is_none_node(test.comparators[0], env) \
                 and isinstance(test.ops[0], (ast.Is, ast.IsNot)) and test.left.id in env \
                 and env[test.left.id].ty[0] == 'opt':
             return test.left.id, isinstance(test.ops[0], ast.Is)
@@ -812,6 +934,10 @@ class FnTranslator:
         if nar is not None:
             return self.if_none(s, nar, env, ctx, cont)
         binds, cond = self.tr_cond(s.test, env)
+        if cond in ('(true = true)', '(false = true)') and not binds:
+            # statically decided by the typing entry: only the live branch is translated
+            live = s.body if cond == '(true = true)' else s.orelse
+            return self.tr_stmts(live, env, ctx, cont)
         # 1st try: no branch leaves -> join the assigned variables
         text = self.if_join(s, cond, env, ctx, cont)
         if text is None:
@@ -1017,7 +1143,71 @@ class FnTranslator:
         return e
 
     def st_While(self, s, env, ctx, cont, rest):
-        self.refuse(s, 'while needs a fuel argument (declare fuel=True in the typing entry); not yet implemented')
+        if not self.t.fuel:
+            self.refuse(s, 'while needs a fuel argument (declare fuel=True, raises=True in the typing entry)')
+        if s.orelse:
+            self.refuse(s, 'while ... else')
+        body_assigned = assigned_names(s.body)
+        state_all = [n for n in body_assigned if n in env]
+        st_names = [lean_ident(n) for n in state_all]
+        st_types = [env[n].ty for n in state_all]
+
+        def st_tuple(env_):
+            parts = [env_[n].lean for n in state_all]
+            if not parts:
+                return '()'
+            return parts[0] if len(parts) == 1 else '(%s)' % ', '.join(parts)
+
+        st_lean_ty = 'Unit' if not st_types else (lean_type(st_types[0]) if len(st_types) == 1 else
+                                                  ' × '.join(lean_type(t, False) for t in st_types))
+        env_body = dict(env)
+        for n in state_all:
+            v = env[n].copy()
+            v.param = False
+            env_body[n] = v
+
+        def check_types(env_):
+            for n in state_all:
+                if n not in env_:
+                    self.refuse(s, 'loop state variable %r is undefined at the end of the body' % n)
+                if env_[n].ty != env[n].ty:
+                    self.refuse(s, 'loop state variable %r changes its type in the body (%s -> %s)' % (
+                        n, env[n].ty, env_[n].ty))
+
+        sv = self.tmp('s')
+        prologue = destruct(st_names, st_types, sv) if state_all else ''
+        cbinds, cond = self.tr_cond(s.test, env_body)
+        if cbinds:
+            self.refuse(s.test, 'loop condition that may raise')
+        ret_ty = ctx.ans_ty
+        lctx = Ctx(lambda e, env_: '(Yaql.Py.Step.ret %s)' % block(ctx.ret(e, env_)),
+                   lambda t: '(Yaql.Py.Step.ret %s)' % block(ctx.raise_(t)),
+                   lambda env_: (check_types(env_), '(Yaql.Py.Step.brk %s)' % st_tuple(env_))[1],
+                   lambda env_: (check_types(env_), '(Yaql.Py.Step.next %s)' % st_tuple(env_))[1],
+                   ans_ty='(Yaql.Py.Step (%s) %s)' % (st_lean_ty, ret_ty))
+
+        def fin_step(env_):
+            check_types(env_)
+            return '(Yaql.Py.Step.next %s)' % st_tuple(env_)
+
+        body = self.tr_stmts(s.body, env_body, lctx, fin_step)
+        ctx.escaped = True
+        env_after = dict(env)
+        for n in state_all:
+            v = env[n].copy()
+            v.param = False
+            env_after[n] = v
+        for n in body_assigned:
+            if n not in state_all:
+                env_after.pop(n, None)
+        binder = '(%s : %s)' % (sv, st_lean_ty)
+        loop = ('(Yaql.Py.whileLoop fuel %s\n    (fun %s =>\n%s)\n    (fun %s =>\n%s) : Option (Yaql.Py.Loop %s %s))' % (
+            st_tuple(env), binder, indent(prologue + '(decide %s)' % cond, 6), binder, indent(prologue + body, 6),
+            '(' + st_lean_ty + ')', ret_ty))
+        r = self.tmp('r')
+        after = (destruct(st_names, st_types, r) if state_all else '') + cont(env_after)
+        return 'match %s with\n| none => %s\n| some (.ret r__) => r__\n| some (.done %s) => %s' % (
+            loop, ctx.raise_('.fuel'), r if state_all else '_', block(after))
 
     # ------------------------------------------------------------------ expressions
 
@@ -1063,15 +1253,20 @@ class FnTranslator:
         if n.id in env:
             v = env[n.id]
             return E(v.lean, v.ty, fresh=False)
-        if n.id in self.t.consts:
-            txt, ty = self.t.consts[n.id]
-            return E(txt, T(ty))
+        c = self.const_of(n.id)
+        if c is not None:
+            return E(c[0], T(c[1]))
         return E(self.lookup_in(n.id, n, env).lean, None)
+
+    def const_of(self, dotted):
+        if dotted in self.t.consts:
+            return self.t.consts[dotted]
+        return GLOBAL_CONSTS.get(dotted)
 
     def ex_Attribute(self, n, env):
         d = self.dotted(n)
-        if d is not None and d in self.t.consts and d.split('.')[0] not in env:
-            txt, ty = self.t.consts[d]
+        if d is not None and d.split('.')[0] not in env and self.const_of(d) is not None:
+            txt, ty = self.const_of(d)
             return E(txt, T(ty))
         # field of a named structure: declared per universe
         recv = self.tr_expr(n.value, env)
@@ -1092,7 +1287,9 @@ class FnTranslator:
             return E('[]', ('list', None), fresh=True)
         if len(es) == 1:
             return E('[%s]' % es[0].text, ('list', es[0].ty), binds, fresh=True)
-        return E('(%s)' % ', '.join(e.text for e in es), ('tup',) + tuple(e.ty for e in es), binds)
+        r = E('(%s)' % ', '.join(e.text for e in es), ('tup',) + tuple(e.ty for e in es), binds)
+        r.parts = es
+        return r
 
     def ex_List(self, n, env):
         if any(isinstance(x, ast.Starred) for x in n.elts):
@@ -1223,13 +1420,40 @@ class FnTranslator:
         if isinstance(node, ast.UnaryOp) and isinstance(node.op, ast.Not):
             b, c = self.tr_cond(node.operand, env)
             return b, '(¬ %s)' % c
+        if isinstance(node, ast.BoolOp) and len(node.values) >= 2:
+            nar = self.narrowing(node.values[0], env)
+            # `x is None or P(x)` / `x is not None and P(x)`: P sees x narrowed
+            if nar is not None and nar[1] == isinstance(node.op, ast.Or):
+                name = nar[0]
+                var = env[name]
+                env2 = dict(env)
+                env2[name] = Var(var.lean, var.ty[1], param=var.param, fresh=var.fresh)
+                restn = node.values[1] if len(node.values) == 2 else ast.copy_location(
+                    ast.BoolOp(op=node.op, values=node.values[1:]), node)
+                b, c = self.tr_cond(restn, env2)
+                if b:
+                    self.refuse(node, 'operand of and/or that may raise (short-circuit position)')
+                dflt = 'true' if isinstance(node.op, ast.Or) else 'false'
+                return [], '((match %s with | none => %s | some %s => %s) = true)' % (
+                    var.lean, dflt, var.lean, self.bool_of(c))
         if isinstance(node, ast.BoolOp):
             parts = [self.tr_cond(v, env) for v in node.values]
             for b, _ in parts[1:]:
                 if b:
                     self.refuse(node, 'operand of and/or that may raise (short-circuit position)')
+            conds = [c for _, c in parts]
+            if isinstance(node.op, ast.And):
+                if '(false = true)' in conds:
+                    return parts[0][0], '(false = true)'
+                conds = [c for c in conds if c != '(true = true)'] or ['(true = true)']
+            else:
+                if '(true = true)' in conds:
+                    return parts[0][0], '(true = true)'
+                conds = [c for c in conds if c != '(false = true)'] or ['(false = true)']
+            if len(conds) == 1:
+                return parts[0][0], conds[0]
             op = ' ∧ ' if isinstance(node.op, ast.And) else ' ∨ '
-            return parts[0][0], '(%s)' % op.join(c for _, c in parts)
+            return parts[0][0], '(%s)' % op.join(conds)
         if isinstance(node, ast.Compare):
             return self.tr_compare(node, env)
         e = self.tr_expr(node, env)
@@ -1433,6 +1657,9 @@ class FnTranslator:
         except KeyError as ex:
             self.refuse(node, 'primitive needs the ambient parameter %s, which the typing entry does not declare' % ex)
         if prim.mut:
+            if prim.partial:
+                t = self.tmp()
+                return E(t, UNIT, binds + [(t, text)])
             return E(text, UNIT, binds)
         ret = prim.ret(recv.ty if recv is not None else None, atys) if callable(prim.ret) else T(prim.ret)
         if prim.partial:
@@ -1469,8 +1696,11 @@ class FnTranslator:
                 return E(t, ret[1], binds + [(t, '(%s %s)' % (v.lean, ' '.join(a.text for a in args)))])
             return E('(%s %s)' % (v.lean, ' '.join(a.text for a in args)) if args else v.lean, ret, binds)
         # 2. primitives named in the typing entry (dotted name), unless the head is a local
-        if d is not None and d in self.t.prims and d.split('.')[0] not in env:
-            return self.call_prim(self.t.prims[d], n, env)
+        if d is not None and d.split('.')[0] not in env and (d in self.t.prims or d in GLOBAL_PRIMS):
+            return self.call_prim(self.t.prims.get(d) or GLOBAL_PRIMS[d], n, env)
+        # 2b. a translated function of another module, called by its dotted name
+        if d is not None and d.split('.')[0] not in env and d in self.registry:
+            return self.call_target(self.registry[d], n, env)
         # 3. builtins
         if isinstance(f, ast.Name):
             b = getattr(self, 'bi_' + f.id, None)
@@ -1497,9 +1727,21 @@ class FnTranslator:
     def call_target(self, tgt, n, env):
         if n.keywords:
             self.refuse(n, 'keyword arguments in a call of a translated function')
-        if len(n.args) > len(tgt.params):
-            self.refuse(n, 'too many arguments')
-        args = [self.coerce(self.tr_expr(a, env), ty, n) for a, (_p, ty) in zip(n.args, tgt.params)]
+        if any(isinstance(a, ast.Starred) for a in n.args):
+            self.refuse(n, 'starred argument')
+        if tgt.vararg:
+            k = len(tgt.params) - 1
+            if len(n.args) < k:
+                self.refuse(n, 'too few arguments')
+            args = [self.coerce(self.tr_expr(a, env), ty, n) for a, (_p, ty) in zip(n.args[:k], tgt.params)]
+            ety = tgt.params[-1][1][1]
+            extra = [self.coerce(self.tr_expr(a, env), ety, n) for a in n.args[k:]]
+            args.append(E('[%s]' % ', '.join(x.text for x in extra), tgt.params[-1][1],
+                          [b for x in extra for b in x.binds]))
+        else:
+            if len(n.args) > len(tgt.params):
+                self.refuse(n, 'too many arguments')
+            args = [self.coerce(self.tr_expr(a, env), ty, n) for a, (_p, ty) in zip(n.args, tgt.params)]
         if len(args) < len(tgt.params):
             # omitted arguments take the Lean default values, which the callee's definition carries
             pass
@@ -1510,6 +1752,10 @@ class FnTranslator:
             if ln not in mine:
                 self.refuse(n, 'callee needs the ambient parameter %s' % ln)
             amb.append(ln)
+        if tgt.fuel:
+            if not self.t.fuel:
+                self.refuse(n, 'callee needs fuel')
+            amb.append('fuel')
         text = '(%s %s)' % (tgt.lean_name, ' '.join(amb + [a.text for a in args]))
         if tgt.raises:
             t = self.tmp()
@@ -1542,6 +1788,8 @@ class FnTranslator:
             return E('(Yaql.Py.dictKeys %s)' % e.text, ('list', e.ty[1]), e.binds)
         if e.ty == STR:
             return E('(%s.map fun c => [c])' % e.text, ('list', STR), e.binds)
+        if e.ty[0] == 'iter':
+            return E(e.text, ('list', e.ty[1]), e.binds)
         if e.ty[0] != 'list':
             self.refuse(n, 'conversion to a list of a value of type %s' % (e.ty,))
         return e
@@ -1624,6 +1872,19 @@ class FnTranslator:
         if n.keywords or len(n.args) != 2:
             self.refuse(n, 'isinstance() argument form')
         e = self.tr_expr(n.args[0], env)
+        if e.ty[0] in STATIC_CLASSES:
+            # the typing entry fixes the class of the value: the test is decided statically (the other branch is
+            # outside the domain of this translation and is not translated)
+            cls = n.args[1]
+            names = [self.dotted(c) for c in cls.elts] if isinstance(cls, ast.Tuple) else [self.dotted(cls)]
+            yes, no = STATIC_CLASSES[e.ty[0]]
+            names = [c.split('.')[-1] if c else c for c in names]
+            yes, no = {c.split('.')[-1] for c in yes}, {c.split('.')[-1] for c in no}
+            if any(c in yes for c in names):
+                return E('true', BOOL, e.binds)
+            if all(c in no for c in names):
+                return E('false', BOOL, e.binds)
+            self.refuse(n, 'isinstance of a %s value against %s: not in the static class table' % (e.ty[0], names))
         if e.ty[0] != 'named' or 'isinstance' not in self.universes.get(e.ty[1], {}):
             self.refuse(n, 'isinstance on a value of type %s: no closed universe declared' % (e.ty,))
         table = self.universes[e.ty[1]]['isinstance']
